@@ -15,7 +15,7 @@ import Driver.GaussH
 import Driver.SamplersH
 namespace Driver
 
-def allHandlers : List (String × Handler) := opsHandlers ++ nttHandlers ++ nttHandlers2 ++ tabHandlers ++ salsaHandlers ++ rbHandlers ++ settersHandlers ++ serialHandlers ++ cowHandlers ++ exprHandlers ++ simdHandlers ++ crtHandlers ++ crtHandlers2 ++ concHandlers ++ gaussHandlers ++ samplersHandlers
+def allHandlers : List (String × Handler) := opsHandlers ++ nttHandlers ++ nttHandlers2 ++ tabHandlers ++ permHandlers ++ salsaHandlers ++ rbHandlers ++ settersHandlers ++ serialHandlers ++ cowHandlers ++ exprHandlers ++ simdHandlers ++ crtHandlers ++ crtHandlers2 ++ concHandlers ++ gaussHandlers ++ samplersHandlers
 
 -- op names must be unique across the handler families (a duplicate would silently shadow a family)
 #guard (allHandlers.map (·.1)).eraseDups.length == allHandlers.length
